@@ -399,3 +399,34 @@ func (op *Op) IOBody(b *Built, kind string) string {
 		return JSONOf(in)
 	}
 }
+
+// sourceTag is the struct tag the documented dispatch of zhttp selects.
+func (io *IOSpec) sourceTag() string {
+	switch io.dispatch() {
+	case "json":
+		return "json"
+	case "form":
+		return "form"
+	}
+	return "query"
+}
+
+// dispatch implements the documented source selection of zhttp.Request:
+// query parameters for GET and HEAD; otherwise by media type, ignoring
+// parameters such as charset.
+func (io *IOSpec) dispatch() string {
+	if io.Method == "GET" || io.Method == "HEAD" {
+		return "query"
+	}
+	mt := io.CT
+	if i := strings.Index(mt, ";"); i >= 0 {
+		mt = mt[:i]
+	}
+	switch strings.TrimSpace(mt) {
+	case "application/json":
+		return "json"
+	case "application/x-www-form-urlencoded":
+		return "form"
+	}
+	return "query"
+}
